@@ -63,12 +63,26 @@ def generate():
             raise ExtractError("skeleton of %s too short for %s" % (fn, name))
         items.append("def %s : Ord := %s" % (name, a[k].split()[field]))
     order("ordNextAdd", "publish_n", 0)
-    order("ordPubFence", "publish_n", 3)
-    order("ordPubScFence", "publish_n", 4)
+    # fences are located by their position between the notable calls; a fence that is no longer there is
+    # emitted as `.rlx` (a relaxed fence is a no-op), so that dropping it reaches the theorems
+    # (gen_orders, gen_skel_*, ordPubFence_releases, topic_wake_view, ...) instead of stopping the translator
+    def fence_between(name, fn, after, before):
+        s = sk[fn]
+        try:
+            i = max(k for k, x in enumerate(s) if x == '.call "%s"' % after) if after else -1
+            j = min(k for k, x in enumerate(s) if x == '.call "%s"' % before and k > i) if before else len(s)
+        except ValueError:
+            raise ExtractError("skeleton of %s lost the call %s / %s" % (fn, after, before))
+        f = [x for x in s[i + 1:j] if x.startswith(".fence")]
+        if len(f) > 1:
+            raise ExtractError("%s: more than one fence between %s and %s" % (fn, after, before))
+        items.append("def %s : Ord := %s" % (name, f[0].split()[-1] if f else ".rlx"))
+    fence_between("ordPubFence", "publish_n", "callback", "set_published")
+    fence_between("ordPubScFence", "publish_n", "set_published", "wakeup_waiters")
     order("ordStatusStore", "set_published", 0)
     order("ordClosedStore", "set_closed", 0)
     order("ordCloseLoad", "close", 0)
-    order("ordCloseScFence", "close", 1)
+    fence_between("ordCloseScFence", "close", "set_closed", "wakeup_waiters")
     order("ordWakeLoad", "wakeup_waiters", 0)
     order("ordWakeCasSucc", "wakeup_waiters_slow", 0, 3)
     order("ordWakeCasFail", "wakeup_waiters_slow", 0, 4)
@@ -78,7 +92,7 @@ def generate():
     order("ordWaitCasSucc", "wait_until_ready_slow", 0, 3)
     order("ordWaitCasFail", "wait_until_ready_slow", 0, 4)
     order("ordWaitReload", "wait_until_ready_slow", 1)
-    order("ordAcqFence", "consume", 0)
+    fence_between("ordAcqFence", "consume", "wait_until_ready", None)
     order("ordReset", "reset", 0)
     order("ordClearNext", "clear", 0)
 
@@ -115,9 +129,9 @@ def generate():
     p = strip_comments(top("publish_n", 1))
     _need(r"if\s*\(\s*CONCURRENT\s*\)\s*\{\s*begin_index\s*=\s*_next_event_index\.fetch_add\(\s*num\s*,", p, "publish_n: fetch_add(num)")
     _need(r"auto\s+end_index\s*=\s*begin_index\s*\+\s*num\s*;\s*auto\s+\w+\s*=\s*_slots\.reserved_snapshot\(\s*end_index\s*\)\s*;\s*\w+\.for_each\(\s*begin_index\s*,\s*end_index\s*,", p, "publish_n: range and snapshot")
-    _need(r"callback\(\s*Iterator\(begin\)\s*,\s*Iterator\(end\)\s*\)\s*;\s*::std::atomic_thread_fence\([^;]*\)\s*;\s*"
+    _need(r"callback\(\s*Iterator\(begin\)\s*,\s*Iterator\(end\)\s*\)\s*;\s*(?:::std::atomic_thread_fence\([^;]*\)\s*;\s*)?"
           r"for\s*\(\s*auto\s+iter\s*=\s*begin\s*;\s*iter\s*!=\s*end\s*;\s*\+\+iter\s*\)\s*\{\s*iter->futex\.set_published\(\)\s*;\s*\}\s*"
-          r"::std::atomic_thread_fence\([^;]*\)\s*;\s*"
+          r"(?:::std::atomic_thread_fence\([^;]*\)\s*;\s*)?"
           r"for\s*\(\s*auto\s+iter\s*=\s*begin\s*;\s*iter\s*!=\s*end\s*;\s*\+\+iter\s*\)\s*\{\s*iter->futex\.wakeup_waiters\(\)\s*;\s*\}\s*\}\s*\)\s*;\s*\}\s*$",
           p, "publish_n: per-piece callback / fence / stores / fence / wakes")
     pub = strip_comments(top("publish", 1))
@@ -126,7 +140,7 @@ def generate():
     _need(r"publish<\s*true\s*>\(", strip_comments(top("publish", 0)), "publish defaults to CONCURRENT = true")
     cl = strip_comments(top("close"))
     _need(r"auto\s+index\s*=\s*_next_event_index\.load\([^;]*\)\s*;\s*auto\s*&\s*slot\s*=\s*_slots\.ensure\(\s*index\s*\)\s*;\s*slot\.futex\.set_closed\(\)\s*;\s*"
-          r"::std::atomic_thread_fence\([^;]*\)\s*;\s*slot\.futex\.wakeup_waiters\(\)\s*;\s*\}\s*$", cl, "close shape")
+          r"(?:::std::atomic_thread_fence\([^;]*\)\s*;\s*)?slot\.futex\.wakeup_waiters\(\)\s*;\s*\}\s*$", cl, "close shape")
     cr = strip_comments(top("clear"))
     _need(r"_slots\.for_each\(\s*0\s*,\s*_slots\.size\(\)\s*,.*?while\s*\(\s*iter\s*!=\s*end\s*\)\s*\{\s*\(\*iter\+\+\)\.futex\.reset\(\)\s*;\s*\}\s*\}\s*\)\s*;\s*"
           r"_next_event_index\.store\(\s*0\s*,[^;]*\)\s*;\s*\}\s*$", cr, "clear shape")
@@ -138,7 +152,7 @@ def generate():
           r"if\s*\(\s*slot\.futex\.is_closed\(\)\s*\)\s*\{\s*closed\s*=\s*true\s*;\s*return\s*;\s*\}\s*"
           r"else\s+if\s*\(\s*slot\.futex\.is_published\(\)\s*\)\s*\{\s*\+\+consumed\s*;\s*\+\+iter\s*;\s*continue\s*;\s*\}\s*"
           r"slot\.futex\.wait_until_ready\(\)\s*;\s*\}\s*\}\s*\)\s*;\s*"
-          r"_next_consume_index\s*\+=\s*consumed\s*;\s*::std::atomic_thread_fence\([^;]*\)\s*;\s*"
+          r"_next_consume_index\s*\+=\s*consumed\s*;\s*(?:::std::atomic_thread_fence\([^;]*\)\s*;\s*)?"
           r"return\s+ConsumeRange\s*\{\s*\w+\s*,\s*begin_index\s*,\s*consumed\s*\}\s*;\s*\}\s*$", co, "consume(num) shape")
     _need(r"auto\s+range\s*=\s*consume\(\s*1\s*\)\s*;\s*if\s*\(\s*range\.size\(\)\s*>\s*0\s*\)\s*\{\s*return\s*&range\[0\]\s*;\s*\}\s*return\s+nullptr\s*;",
           strip_comments(function_body(txt, r"Consumer::consume\s*\(", 0)), "consume() = consume(1)")
